@@ -200,12 +200,23 @@ COMMENT_WORDS = ["x", "endmodule", "endmodule", "module", "tie_0", "tie_1", "tie
                  "mux_o_a_b_c", "a&b", "1'b0", "(", ";", "*", "/", "or_a_b", "not_b", "\\esc[1]"]
 
 
-def filler(rng, must, stress):
+COMMENT_SNIPPETS = ["assign o = a & b;", "wire w;\n  and g(o, a);", ");", "endmodule", "input x;\noutput y;", "old:\n  nand g9(o, a, b);\n",
+                    "module m_old(a);\n input a;\nendmodule"]
+
+
+def block_comment(rng, extra=None):
+    """a block comment over several lines with statement-like text (never containing the comment terminator)"""
+    parts = [rng.choice(COMMENT_SNIPPETS + list(extra or [])) for _ in range(rng.randint(1, 2))]
+    body = rng.choice(["\n", "\n  ", " \n"]).join(parts).replace("*/", "* /")
+    return "/*" + rng.choice([" ", "\n"]) + body + rng.choice(["\n", " \n "]) + "*/"
+
+
+def filler(rng, must, stress, extra=None):
     """whitespace / comments between two tokens; `must`: at least one separator character is required"""
     r = rng.random()
     if stress <= 0 or r > stress:
         return " " if must else ""
-    kind = rng.choice(["sp", "sp2", "nl", "tab", "block", "line", "nlnl"])
+    kind = rng.choice(["sp", "sp2", "nl", "tab", "block", "line", "nlnl", "mblock"])
     if kind == "sp":
         return " "
     if kind == "sp2":
@@ -216,6 +227,8 @@ def filler(rng, must, stress):
         return "\n\n  "
     if kind == "tab":
         return "\t"
+    if kind == "mblock":
+        return block_comment(rng, extra)
     words = " ".join(rng.choice(COMMENT_WORDS) for _ in range(rng.randint(0, 3)))
     if kind == "block":
         return "/* " + words.replace("*/", "") + " */"
@@ -229,7 +242,7 @@ def glue(t, n):
     return (t[-1] == "^" and n[0] == "~") or (t[-1] == "~" and n[0] == "^")
 
 
-def render(rng, toks, stress=0.3):
+def render(rng, toks, stress=0.3, extra=None):
     """Join tokens.  A separator is forced between two word-like tokens, after an escaped identifier (white space, not a
     comment) and between `^` and `~` (maximal munch would read the xnor operator).  The text handed to the parser is cut
     out by `module\\s+<name>\\s*\\(.*?\\);(.*?)endmodule`: only white space before the port list, header closed by `);`."""
@@ -247,9 +260,9 @@ def render(rng, toks, stress=0.3):
             continue
         if t.startswith("\\"):
             out.append(rng.choice([" ", "\n", "\t"]) if stress > 0 else " ")
-            out.append(filler(rng, False, stress))
+            out.append(filler(rng, False, stress, extra))
             continue
-        out.append(filler(rng, glue(t, n), stress))
+        out.append(filler(rng, glue(t, n), stress, extra))
     return "".join(out) + ("\n" if rng.random() < 0.8 else "")
 
 
